@@ -151,6 +151,9 @@ func (s *sharedEntryAttributes) toXmlInternal(parent *etree.Element, onlyNewOrUp
 			// So create the element that the tree entry represents
 			newElem := etree.NewElement(s.PathName())
 
+			// the childs that are part of the active choice cases (or not part of a choice at all)
+			activeChilds := s.filterActiveChoiceCaseChilds()
+
 			// Apply sorting of childs
 			keys := s.childs.GetKeys()
 			if s.parent == nil {
@@ -180,6 +183,11 @@ func (s *sharedEntryAttributes) toXmlInternal(parent *etree.Element, onlyNewOrUp
 				if !exists {
 					return false, fmt.Errorf("child %s does not exist for %s", k, strings.Join(s.Path(), "/"))
 				}
+				// childs that belong to a choice case that is not the active one are not part of the config.
+				// If they still exist on the device (running), they are to be deleted.
+				if _, active := activeChilds[k]; !active {
+					continue
+				}
 				doAdd, err := child.toXmlInternal(newElem, onlyNewOrUpdated, honorNamespace, operationWithNamespace, useOperationRemove)
 				if err != nil {
 					return false, err
@@ -188,6 +196,20 @@ func (s *sharedEntryAttributes) toXmlInternal(parent *etree.Element, onlyNewOrUp
 				// if all the childs are meant to no be added, the whole container element should not be added
 				// so we keep track via overAllDoAdd
 				overallDoAdd = doAdd || overallDoAdd
+			}
+			// the elements of choice cases that are not (or no longer) active are to be deleted
+			if onlyNewOrUpdated {
+				for _, k := range s.inactiveChoiceCaseElementsToDelete() {
+					if s.parent == nil {
+						newElem = parent
+					}
+					delElem := newElem.CreateElement(k)
+					if child, exists := s.childs.GetEntry(k); exists && s.parent != nil {
+						xmlAddNamespaceConditional(child, s, delElem, honorNamespace)
+					}
+					utils.AddXMLOperation(delElem, utils.XMLOperationDelete, operationWithNamespace, useOperationRemove)
+					overallDoAdd = true
+				}
 			}
 			// so if there is at least a child and the s.parent is not nil (root node)
 			// then add p to the parent as a child
